@@ -135,6 +135,9 @@ class G:
                 if sub[0] == "switch" and len(sub) - 1 == 3:
                     e1 = ["add", e1, ["not", self.int_expr(env, need_dep=True)]]
                 aes[0] = e1
+            if sub[0] in ("masked_iterate", "masked_iterate_final") and satys[1][1] > 0:
+                # step flags are 0/1
+                aes[1] = ["stack"] + [["not", self.int_expr(env, need_dep=True)] for _ in range(satys[1][1])]
             if ret == "walk" and satys and satys[0] == INT and sub[0] == "dist":
                 aes[0] = ["add", ["var", 0], aes[0]]       # the density reads the carry
             binds.append((addr, sub, aes))
@@ -143,7 +146,10 @@ class G:
             # a scan kernel whose outputs do not read the carry (Scan.edit_index requires the next
             # iteration's return value to be unaffected) while its densities do: a random walk
             env2 = [UNIT] + env[1:]
-            rexp = ["tup", self.int_expr(env2, need_dep=True), self.int_expr(env2) if r.random() < 0.7 else ["tup"]]
+            cexp = self.int_expr(env2, need_dep=True)
+            if len(env) > len(atys) and env[len(atys)] == INT and r.random() < 0.8:
+                cexp = ["add", ["var", len(atys)], cexp]      # the next carry moves with the first choice
+            rexp = ["tup", cexp, self.int_expr(env2) if r.random() < 0.7 else ["tup"]]
         elif ret == "int":
             rexp = self.int_expr(env, need_dep=True)
         elif ret == "scan":          # (carry:int, y:int|unit)
